@@ -24,7 +24,8 @@ const (
 	// compare in UTC: SINCE d and BEFORE d are neither complementary nor disjoint.
 	KfSinceZone = "C15-since-uses-stored-zone"
 	// KfUIDKeyEmptyView: a UID search key on an empty view makes SEARCH fail with NO instead of returning nothing.
-	KfUIDKeyEmptyView = "C15-uid-key-empty-view"
+	// The same defect is seen by C16, which names the entry.
+	KfUIDKeyEmptyView = "C16-search-uid-key-empty-view"
 )
 
 // tri is a Kleene truth value: the oracle judges a message only where the property text and RFC 3501 fix the answer.
